@@ -74,7 +74,7 @@ PLANS["C11"] = dict(stages=[dict(bin="world", world="policy", prop="C11", share=
 # accesses in nsq code count. Used where the property has a "does not crash /
 # stays correct under concurrency" clause.
 RACE_NOTE = "; a share of the budget runs the same world built with -race: a data race between two accesses in nsq code is a violation (class data-race)"
-for _p, _share in (("C08", 0.3), ("C09", 0.25), ("C15", 0.3), ("C16", 0.25), ("C18", 0.3)):
+for _p, _share in (("C02", 0.2), ("C08", 0.3), ("C09", 0.25), ("C15", 0.3), ("C16", 0.25), ("C18", 0.3)):
     _st = PLANS[_p]["stages"]
     _st[0]["share"] = 1.0 - _share
     _st.append(dict(bin="world_race", world=_st[0]["world"], prop=_st[0].get("prop", _p), share=_share))
